@@ -37,6 +37,10 @@ def check_linear(rep, p, En, real) -> None:
     rep.fals_cases += 1
     M = np.array(real).reshape(7, 7)
     cls = p["cls"]
+    if cls == "Cavity" and p["V"] != 0.0:
+        # outside the physical range (the beam would be stopped / cos(phase) ~ 0): no claim
+        if En + p["V"] * math.cos(math.radians(p["phase"])) <= E.MC2 * 1.5 or abs(math.cos(math.radians(p["phase"]))) < 1e-3:
+            return
     if not np.isfinite(M).all():
         rep.fail("falsifier", f"C03|{cls}.transfer_map|nonfinite", f"{cls}.transfer_map has non-finite entries",
                  {"kind": "map", "params": p, "energy": En})
